@@ -4,7 +4,8 @@
    endpoint (GET .../amp/client/<encoded poll>), optionally through an AMP
    cache, optionally domain-fronted.
 
-   A case is a configuration (method, broker URL, front, cache), a poll and a
+   A case is a configuration (method, broker URL, front, cache) - ONE
+   rendezvous object - and a sequence of 1..MaxPolls polls on it, each with a
    scripted HTTP response (status, Location header, body shape and size).
    The contract has two halves, both computed here and printed with the case:
 
@@ -47,7 +48,8 @@
    * request headers other than Host; how often the body is read. *)
 EXTENDS Integers, Sequences, FiniteSets, TLC, Json
 
-CONSTANTS BrokerNames, FrontNames, CacheNames, Statuses, SizeNames, PollLens
+CONSTANTS BrokerNames, FrontNames, CacheNames, Statuses, SizeNames, PollLens,
+          MaxPolls      \* longest sequence of polls on one rendezvous object
 
 Limit == 100000        \* readLimit of client/lib/rendezvous.go
 
@@ -114,25 +116,75 @@ NeverTruncated == \A m \in {"http", "amp"}, st \in Statuses, l \in BOOLEAN, s \i
                     Res(m, st, l, s, sh) = "data" => st = 200 /\ SizeOf(s) <= Limit
 ASSUME NeverTruncated
 
-VARIABLES cs
-vars == <<cs>>
+(* ---------------------------------------------------------------------------
+   A case is ONE rendezvous object (a configuration) and a short SEQUENCE of
+   polls on it, each with its own payload and scripted response.  The object
+   is modelled as a machine: obj is what the object holds (its configuration),
+   Exchange(k) produces the k-th request/result from obj and the k-th poll and
+   leaves obj as it is.  The contract of a poll is the same function of the
+   configuration whatever was polled before:
+     ObjectImmutable   the object never changes,
+     PollsIndependent  the k-th expectation is ExpectPoll(configuration, k-th poll)
+                       for every k - no state leaks from one poll into the next.
+   (A client polls the same BrokerChannel for every snowflake it collects.) *)
+VARIABLES cs,     \* the case: configuration + polls (constant)
+          obj,    \* the rendezvous object's state
+          k,      \* next poll
+          hist    \* what Exchange produced so far
+vars == <<cs, obj, k, hist>>
+
+ConfigOf(c) == [method |-> c.method, broker |-> c.broker, front |-> c.front, cache |-> c.cache]
+ExpectPoll(cf, p) ==
+  LET b == Broker(cf.broker) f == Front(cf.front) c == Cache(cf.cache)
+      rq == Req(cf.method, b, f, c, p.poll.len) IN
+  [req |-> rq,
+   \* no faithful cache URL, no request: the result is not judged either
+   res |-> IF rq.judged THEN Res(cf.method, p.status, p.location, p.size, p.shape) ELSE "any"]
+
+P(st, loc, s, sh, pl, pf) == [status |-> st, location |-> loc, size |-> s, shape |-> sh, poll |-> [len |-> pl, fill |-> pf]]
+PollOK(m, cn, p) ==
+  /\ (m = "http" => ~p.location /\ p.shape # "armor-full")           \* the POST body is opaque bytes
+  /\ (p.shape # "plain" => p.size # "0")                             \* there is no armor of zero bytes
+  /\ (p.poll.len = 0 => p.poll.fill = "rand")
+  /\ (p.location => p.status \in {200, 302})
+(* every single poll (sequences of length 1) *)
+AllPolls(m, cn) == {p \in {P(st, loc, s, sh, pl, pf) : st \in Statuses, loc \in BOOLEAN, s \in SizeNames,
+                                 sh \in {"plain", "armor-pad", "armor-full"}, pl \in PollLens, pf \in {"rand", "ff"}} : PollOK(m, cn, p)}
+(* representatives of the result classes for the longer sequences; payload
+   length and bytes differ from poll to poll *)
+RepPolls(m) ==
+  IF m = "http"
+  THEN {P(200, FALSE, "small", "plain", 300, "rand"), P(200, FALSE, "limit", "armor-pad", 0, "rand"), P(404, FALSE, "small", "plain", 1500, "ff"),
+        P(200, FALSE, "limit+1", "plain", 300, "ff"), P(500, FALSE, "0", "plain", 1, "rand")}
+  ELSE {P(200, FALSE, "small", "armor-pad", 300, "rand"), P(200, FALSE, "limit", "armor-full", 1500, "ff"), P(302, TRUE, "small", "plain", 300, "ff"),
+        P(200, FALSE, "limit+1", "armor-pad", 1, "rand"), P(200, FALSE, "small", "plain", 300, "rand"), P(204, FALSE, "0", "plain", 1500, "rand")}
 
 Init ==
-  \E m \in {"http", "amp"}, bn \in BrokerNames, fn \in FrontNames, cn \in CacheNames, st \in Statuses, loc \in BOOLEAN,
-     s \in SizeNames, sh \in {"plain", "armor-pad", "armor-full"}, pl \in PollLens, pf \in {"rand", "ff"} :
-    /\ (m = "http" => cn = "none" /\ ~loc /\ sh # "armor-full")        \* the POST body is opaque bytes
-    /\ (sh # "plain" => s # "0")                                       \* there is no armor of zero bytes
-    /\ (pl = 0 => pf = "rand")
-    /\ (loc => st \in {200, 302})
-    /\ cs = [method |-> m, broker |-> bn, front |-> fn, cache |-> cn, status |-> st, location |-> loc,
-             size |-> s, shape |-> sh, poll |-> [len |-> pl, fill |-> pf]]
-Stutter == UNCHANGED vars
+  /\ \E m \in {"http", "amp"}, bn \in BrokerNames, fn \in FrontNames, cn \in CacheNames :
+       /\ (m = "http" => cn = "none")
+       /\ \/ \E p \in AllPolls(m, cn) : cs = [method |-> m, broker |-> bn, front |-> fn, cache |-> cn, polls |-> <<p>>]
+          \/ \E n \in 2..MaxPolls : \E ps \in [1..n -> RepPolls(m)] :
+               cs = [method |-> m, broker |-> bn, front |-> fn, cache |-> cn, polls |-> ps]
+  /\ obj = ConfigOf(cs) /\ k = 1 /\ hist = <<>>
 
+Exchange ==
+  /\ k <= Len(cs.polls)
+  /\ hist' = Append(hist, ExpectPoll(obj, cs.polls[k]))
+  /\ k' = k + 1
+  /\ UNCHANGED <<cs, obj>>            \* an exchange leaves the object as it found it
+Next == Exchange
+Spec == Init /\ [][Next]_vars /\ WF_vars(Next)
+
+ObjectImmutable == obj = ConfigOf(cs)
+PollsIndependent == \A j \in DOMAIN hist : hist[j] = ExpectPoll(ConfigOf(cs), cs.polls[j])
+AllPolled == <>(k = Len(cs.polls) + 1)
+
+(* printed once per case, on its initial state *)
 Emit ==
-  LET b == Broker(cs.broker) f == Front(cs.front) c == Cache(cs.cache) IN
-  PrintT(ToJson([cs |-> cs, brokerurl |-> BrokerText(b), fronthost |-> f, cacheurl |-> CacheText(c), bytes |-> SizeOf(cs.size),
-                 expect |-> [req |-> Req(cs.method, b, f, c, cs.poll.len),
-                             \* no faithful cache URL, no request: the result is not judged either
-                             res |-> IF Req(cs.method, b, f, c, cs.poll.len).judged
-                                     THEN Res(cs.method, cs.status, cs.location, cs.size, cs.shape) ELSE "any"]]))
+  hist = <<>> /\ k = 1 =>
+  LET cf == ConfigOf(cs) IN
+  PrintT(ToJson([cs |-> cf, brokerurl |-> BrokerText(Broker(cf.broker)), fronthost |-> Front(cf.front), cacheurl |-> CacheText(Cache(cf.cache)),
+                 polls |-> [j \in DOMAIN cs.polls |-> [status |-> cs.polls[j].status, location |-> cs.polls[j].location, size |-> cs.polls[j].size,
+                                                       shape |-> cs.polls[j].shape, poll |-> cs.polls[j].poll, bytes |-> SizeOf(cs.polls[j].size)]],
+                 expect |-> [j \in DOMAIN cs.polls |-> ExpectPoll(cf, cs.polls[j])]]))
 =============================================================================
